@@ -634,6 +634,14 @@ class FnEmitter:
         if op in ('add', 'sub', 'mul', 'udiv', 'sdiv', 'urem', 'srem', 'shl', 'lshr', 'ashr', 'and', 'or', 'xor', 'fadd', 'fsub', 'fmul', 'fdiv'):
             while sc.acc('nuw') or sc.acc('nsw') or sc.acc('exact') or sc.acc('fast') or sc.acc('nnan') or sc.acc('ninf') or sc.acc('nsz') or sc.acc('arcp') or sc.acc('contract') or sc.acc('reassoc') or sc.acc('afn'): pass
             t = parse_type(sc); a = parse_value(sc, t); sc.exp(','); b = parse_value(sc, t)
+            if op == 'sub' and isinstance(t, IntT) and t.bits == 64 and a[0] == 'loc' and b[0] == 'loc':
+                # pointer difference (ptrtoint/ptrtoint/sub): emit a C pointer subtraction, which symex folds for same-object pointers
+                da = s.defline.get(a[1], ''); db = s.defline.get(b[1], '')
+                if da.startswith('ptrtoint') and db.startswith('ptrtoint'):
+                    def src(dl):
+                        q = Sc(dl); q.word(); pt = parse_type(q); pv = parse_value(q, pt); return s.val(pt, pv)
+                    try: return setres(t, '((uint64_t)((char*)%s - (char*)%s))' % (src(da), src(db)))
+                    except Exception: pass
             return setres(t, s.bin_expr(op, t, s.val(t, a), s.val(t, b)))
         if op == 'icmp':
             p = sc.word(); t = parse_type(sc); a = parse_value(sc, t); sc.exp(','); b = parse_value(sc, t)
@@ -920,7 +928,7 @@ def shape_of(rt, argtys):
     return k(rt) + '(' + ','.join(k(a) for a in argtys) + ')'
 
 class Globals:
-    def __init__(s, m, em, model_syms): s.m = m; s.em = em; s.model = model_syms; s.used = set(); s.usedf = set(); s.taken_plain = set(); s.vt_slots = {}; s.cand_plain = set(); s.cand_vt = {}; s.in_vtable = None
+    def __init__(s, m, em, model_syms): s.m = m; s.em = em; s.model = model_syms; s.used = set(); s.usedf = set(); s.taken_plain = set(); s.vt_slots = {}; s.cand_plain = set(); s.cand_vt = {}; s.in_vtable = None; s.literals16 = []
     def fname(s, n): return 'F_' + cid(n) if (n in s.m.funcs and s.m.funcs[n].isdef and n not in s.model) else s.ext_name(n)
     def ext_name(s, n): return cid(n)
     def gname(s, n): return 'G_' + cid(n)
@@ -953,8 +961,11 @@ class Globals:
         if k in ('zero', 'undef'):
             return '{0}' if isinstance(body, (StructT, ArrT)) else '0'
         if k == 'str':
+            s.literals16.append(list(v[1]))   # 8-bit literal, checked in widened form
             return '{ {' + ','.join(str(b) for b in v[1]) + '} }'
         if k == 'agg':
+            if isinstance(body, ArrT) and isinstance(body.e, IntT) and body.e.bits == 16 and all(ev[0] == 'int' for (_et, ev) in v[1]):
+                s.literals16.append([ev[1] & 0xffff for (_et, ev) in v[1]])   # UTF-16 literal data (for the offline injectivity check of string ids)
             if isinstance(body, ArrT):
                 if s.in_vtable is not None:
                     for idx, (et, ev) in enumerate(v[1]):
@@ -1036,7 +1047,7 @@ def main():
                 varinit[n] = refs
     ctor_sel = []
     for _round in range(12):
-        gl.indirect_sites = []
+        gl.indirect_sites = []; gl.literals16 = []
         em.tdefs = {}; em.torder = []; em.tstate = {}
         work = list(entries) + list(ctor_sel); done = {}; unsupported = {}
         gwork = []; gdone = {}
@@ -1142,7 +1153,7 @@ def main():
     out.append('\n'.join(protos)); out.append('\n'.join(gdefs)); out.append('\n\n'.join(bodies)); out.append('/* ---- stubs ---- */'); out.append('\n'.join(stubs))
     open(a.out, 'w').write('\n\n'.join(out) + '\n')
     stubbed = sorted(n for n in ext_funcs if n not in model_syms and not n.startswith('nondet_') and n not in LIBC)
-    rep = dict(translated=sorted(done), stubbed=stubbed, unsupported=unsupported, model=sorted(model_syms & allf), ctors=ctor_sel,
+    rep = dict(literals16=gl.literals16, translated=sorted(done), stubbed=stubbed, unsupported=unsupported, model=sorted(model_syms & allf), ctors=ctor_sel,
                ext_globals=ext_globals, indirect_sites=[dict(fn=a_, shape=b_, slot=c_, cands=d_) for (a_, b_, c_, d_) in gl.indirect_sites])
     if a.report:
         import json; json.dump(rep, open(a.report, 'w'), indent=1)
